@@ -25,7 +25,7 @@ import (
 func init() {
 	register(&Check{
 		ID:   "C17",
-		Rule: "case = one configuration: (FRUGAL_MAX_INLINE_DEPTH in {unset,2,3,10,0x10,1000000}) x (FRUGAL_MAX_INLINE_IL_SIZE in {unset,257,50000,2^40}) x placement of the legacy calls (none, before first use, midway, before every item, from a concurrent goroutine) - NoJIT, Pretouch with every option constructor on accepted, rejected and non-struct types, SetMaxInline*, debug.GetStats. Each configuration runs in a fresh child process over a slice of the C01 corpus (plus probes of rejected types) and returns a SHA-256 digest of sizes, canonical encoded bytes, canonical decoded values and error classes; oracle: digest equals the default configuration's digest, every item equals the reference model (C01-C04 oracles) inside the child, Pretouch returned nil every time, setters returned their argument. distinct = distinct configuration; non-trivial = the configuration differs from the default one",
+		Rule: "case = one configuration: (FRUGAL_MAX_INLINE_DEPTH in {unset,2,3,10,0x10,1000000}) x (FRUGAL_MAX_INLINE_IL_SIZE in {unset,257,50000,2^40}) x placement of the legacy calls (none, before first use, midway, before every item, from a concurrent goroutine) - NoJIT, Pretouch with every option constructor on accepted, rejected and non-struct types, SetMaxInline*, debug.GetStats. Each configuration runs in a fresh child process over a slice of the C01 corpus (plus probes of rejected types) and returns a SHA-256 digest of sizes, canonical encoded bytes, canonical decoded values, error classes and accept/reject of deep-nesting probes (48..20000 levels); oracle: digest equals the default configuration's digest, every item equals the reference model (C01-C04 oracles) inside the child, Pretouch returned nil every time, setters returned their argument. distinct = distinct configuration; non-trivial = the configuration differs from the default one",
 		Plan: func(tier string) []BuildPlan {
 			n := len(c17Depth) * len(c17Size) * len(c17Place)
 			if tier == "thorough" {
@@ -254,6 +254,18 @@ func RunSubC17(spec string) {
 		h.Write(ref.Canon(s, dst.Elem(), ref.CmpOpts{LenientDouble: true}))
 		if d := ref.Diff(s, cc.V.Elem(), dst.Elem(), ref.CmpOpts{RoundTrip: true, LenientDouble: true}); d != "" {
 			note("item %d: round trip differs: %s", ci, d)
+		}
+	}
+	// the decoder's depth bound must not follow any setting
+	for _, d := range []int{48, 100, 300, 500, 511, 512, 513, 600, 1024, 1500, 3000, 20000} {
+		steps := make([]string, d-1)
+		for i := range steps {
+			steps[i] = "next"
+		}
+		dr := fDecode(deepMessage(steps), &zoo.Node{})
+		fmt.Fprintf(h, "depth %d ok %v|", d, dr.err == nil && !dr.panicked())
+		if dr.panicked() || (d <= 48 && dr.err != nil) {
+			note("depth probe %d: err=%v panic=%v", d, dr.err, dr.pv)
 		}
 	}
 	// rejected definitions must stay rejected whatever Pretouch was told
